@@ -18,11 +18,15 @@ use std::io::Write;
 use std::os::fd::{AsRawFd, FromRawFd};
 
 pub const VARS: [&str; 6] = ["NO_COLOR", "CLICOLOR_FORCE", "CLICOLOR", "TERM", "COLORTERM", "CI"];
-const VALUES: [&str; 24] = [
+const VALUES: [&str; 32] = [
     "", "0", "1", "dumb", "xterm-256color", "true", "false", "truecolor", "24bit", "vt100", " ", "00", "DUMB", NON_UTF8,
     // every string literal the query code itself mentions on any platform, and common TERM values
     "cygwin", "xterm", "linux", "screen", "ansi", "msys", "unknown", "TRUECOLOR", "no", "woodpecker",
+    // value shapes: padded, with a line end, with '=', very long
+    " 0", "0 ", "1 ", "0\n", "a=b", "dumb ", " dumb", LONG_VALUE,
 ];
+/// Stands for a 5000-byte value (`x` repeated).
+const LONG_VALUE: &str = "\u{fffd}<5000 x>";
 /// Stands for an environment value that is not valid UTF-8 (the bytes FF FE are what is really set).
 const NON_UTF8: &str = "\u{fffd}<non-utf8 bytes ff fe>";
 
@@ -437,6 +441,8 @@ impl World<'_> {
                 if v == NON_UTF8 {
                     use std::os::unix::ffi::OsStringExt;
                     std::env::set_var(VARS[*i], std::ffi::OsString::from_vec(vec![0xff, 0xfe]));
+                } else if v == LONG_VALUE {
+                    std::env::set_var(VARS[*i], "x".repeat(5000));
                 } else {
                     std::env::set_var(VARS[*i], v);
                 }
